@@ -836,6 +836,9 @@ var _ rpc.Resources
 //@   ensures[C08,C11] forall x *Subscription :: x.direct == old(x.direct)
 //@   assigns Subscription.direct, Subscription.indirect, Subscription.indirectsent, Subscription.state, Subscription.readyCallbacks,
 //@       Subscription.eventQueue, Subscription.throttle, Subscription.resourceSub, Subscription.refs, elems(s.c.(*wsConn).subs), pkgstate(rescache), cachecontainers()
+// (references are given back with the subscription's sent state as it was before the disposal:
+// a resource that was sent takes one sent-parent count from each referenced resource)
+//@   assert[C02] s.unsubscribeRefs#1: s.state == old(s.state)
 //@   safety[C15]
 
 // dispose: idempotent; the connection is marked as disposing, leaves the token-reset fan-out,
